@@ -381,6 +381,7 @@ const (
 	sWriterTo    = "WriterTo"
 	sReader      = "Reader"
 	sReadCloser  = "ReadCloser"
+	sSeekReader  = "ReadSeeker, partly read by the caller" // (r7) the payload is what is left in the reader
 	sNil         = "nil"
 	sNilStrPtr   = "(*string)(nil)"
 	sNilBytesPtr = "(*[]byte)(nil)"
@@ -390,7 +391,7 @@ const (
 )
 
 var srcKinds = []string{sWrToCloser, sString, sStringPtr, sNamedStr, sBytes, sBytesPtr, sNamedBytes, sError, sStringer, sTxtM, sBothTxt, sBinM, sWriterTo,
-	sReader, sReadCloser, sNil, sNilStrPtr, sNilBytesPtr, sInt, sIntPtr, sChanless}
+	sReader, sReadCloser, sSeekReader, sNil, sNilStrPtr, sNilBytesPtr, sInt, sIntPtr, sChanless}
 
 // verdict of the documentation for a source kind: "exact" (the sink receives exactly the source bytes),
 // "error" (must be refused), "open" (accepted through another documented rule, e.g. written as JSON: not judged here).
@@ -403,7 +404,7 @@ func sourceVerdict(codec, k string) string {
 			return "exact"
 		}
 		return "open" // strings, []byte kinds are written as such; others fall to the JSON rule
-	case sBytes, sBytesPtr, sNamedBytes, sBinM, sWriterTo, sReader, sReadCloser, sWrToCloser:
+	case sBytes, sBytesPtr, sNamedBytes, sBinM, sWriterTo, sReader, sReadCloser, sSeekReader, sWrToCloser:
 		if codec == "bytes" {
 			return "exact"
 		}
@@ -478,6 +479,13 @@ func CheckProduce(c ProduceCase) *kit.Violation {
 		s := c.Stream
 		s.Closable = true
 		rd, src = s.open()
+	case sSeekReader:
+		const lead = "read-by-the-caller-before:"
+		sr := io.NewSectionReader(bytes.NewReader(append([]byte(lead), data...)), 0, int64(len(lead)+len(data)))
+		if _, err := io.CopyN(io.Discard, sr, int64(len(lead))); err != nil {
+			return kit.Failf("harness: %v", err)
+		}
+		src = struct{ io.ReadSeeker }{sr}
 	case sNil:
 		src = nil
 	case sNilStrPtr:
